@@ -32,17 +32,26 @@ theorem C13_gain_pos_at (T : ℕ) (dk : ℤ) (h1 : 1 < dk) (h2 : dk < T) : 0 < g
 theorem C13_gain_lt_one_at (T : ℕ) (dk : ℤ) (h1 : 1 < dk) : gainAT T dk < 1 :=
   gainAT_lt_one T dk h1
 
-/-- `1 ≤ dk < T → 0 < dk^(-1/log10 T) - 0.1` (Veitch, default decay). -/
+/-- `1 ≤ dk < T → 0 < dk^(-1/log10 T) - T^(-1/log10 T)` (Veitch, default decay; the constant is the
+    `0.1` of the reference, `gainV_default_const`). -/
 theorem C13_gain_pos_veitch (T : ℕ) (dk : ℤ) (h1 : 1 ≤ dk) (h2 : dk < T) :
-    0 < gainV (1 / Real.logb 10 T) dk :=
-  gainV_pos T _ le_rfl dk h1 h2
+    0 < gainV T (1 / Real.logb 10 T) dk := by
+  have hT : (1 : ℝ) < T := by
+    have : (dk : ℝ) < T := by exact_mod_cast h2
+    have : (1 : ℝ) ≤ dk := by exact_mod_cast h1
+    linarith
+  exact gainV_pos T _ (one_div_pos.mpr (Real.logb_pos (by norm_num) hT)) dk h1 h2
 
-/-- The same for every user-supplied `adaptation_decay ≤ 1 / log10 T`.  (A larger decay
-    makes the gain negative before the window ends: `adaptation_decay` is not among the
-    configurations the property quantifies over.) -/
-theorem C13_gain_pos_veitch_decay (T : ℕ) (β : ℝ) (hβ : β ≤ 1 / Real.logb 10 T) (dk : ℤ)
-    (h1 : 1 ≤ dk) (h2 : dk < T) : 0 < gainV β dk :=
+/-- The same for EVERY user-supplied positive `adaptation_decay` (the constant follows the decay since
+    the repo fix of the third session; with the constant `0.1` of the unrepaired code a decay above the
+    default made the gain negative before the window ended, and accepted steps narrowed the proposal). -/
+theorem C13_gain_pos_veitch_decay (T : ℕ) (β : ℝ) (hβ : 0 < β) (dk : ℤ)
+    (h1 : 1 ≤ dk) (h2 : dk < T) : 0 < gainV T β dk :=
   gainV_pos T β hβ dk h1 h2
+
+/-- The unrepaired constant: with `0.1` and decay `1`, `dk = 11` has a negative gain. -/
+theorem C13_gain_fixed_constant_counterexample : ((11 : ℝ) ^ (-(1 : ℝ))) - 0.1 < 0 := by
+  rw [Real.rpow_neg_one]; norm_num
 
 section Generic
 variable {α : Type} [Field α] [LinearOrder α] [IsStrictOrderedRing α]
@@ -56,7 +65,7 @@ def ATGainOK (T : Nat) (gain : Int → α) : Prop :=
 
 end Generic
 
-theorem C13_gain_exact_veitch (T : ℕ) : VeitchGainOK T (gainV (1 / Real.logb 10 T)) :=
+theorem C13_gain_exact_veitch (T : ℕ) : VeitchGainOK T (gainV T (1 / Real.logb 10 T)) :=
   fun d h1 h2 => C13_gain_pos_veitch T d h1 h2
 
 theorem C13_gain_exact_at (T : ℕ) : ATGainOK T (gainAT T) :=
